@@ -257,6 +257,31 @@ def run_hier_edit(ctx, rep):
             T = np.array(mod.S)[0]
             n = T.shape[0]
             return float(np.max(np.abs(T.conj().T @ T - np.eye(n)))) if n else 0.0
+
+        def well_posed():
+            """condition number of the network system of the equivalent flat circuit (a closed lossless loop can resonate: the
+            property speaks about well-posed circuits, and floating point does not always notice an exactly singular system)"""
+            from common import parse_cfrac
+            leaf, comps = {}, []
+            def add_leaf(st, flat_S, n):
+                leaf[id(st)] = len(comps)
+                S = [[parse_cfrac(z) for z in flat_S[i * n:(i + 1) * n]] for i in range(n)]
+                comps.append({"pins": [p.name for _, p in st.pin_list], "idx": list(range(n)), "S": S})
+            known = {id(st): c for c, st in csts + osts}
+            for st in child.structures + [x for x in parent.structures if x.solver is None]:
+                if id(st) in known:
+                    add_leaf(st, rep["mats"][known[id(st)]], sizes[known[id(st)]])
+                else:
+                    add_leaf(st, rep["extra"], 2)
+            res = lambda t: child.pin_mapping[L.Pin(t[1].name)] if t[0] is cst else t
+            key = lambda t: (leaf[id(t[0])], t[1].name)
+            links = [key(a) + key(b) for a, b in child.connections.items()] + [key(res(a)) + key(res(b)) for a, b in parent.connections.items()]
+            exposed = [(n_.name,) + key(res(t)) for n_, t in parent.pin_mapping.items()]
+            _, cond, _, _ = gen.reference_solve({"comps": comps, "links": links, "exposed": exposed})
+            return cond <= 1e6
+        if not well_posed():
+            ctx.tag("skipped:resonant-hierarchy")
+            return True
         d1 = unit_defect(parent.solve())
         # in-place edit of the placed sub-solver
         kind = r.choice(["prepend", "swap"]) if len(cnames) >= 2 else "prepend"
@@ -272,6 +297,9 @@ def run_hier_edit(ctx, rep):
             x, y = r.sample(cnames, 2)
             tx, ty = child.pin_mapping[L.Pin(x)], child.pin_mapping[L.Pin(y)]
             child.pin_mapping[L.Pin(x)], child.pin_mapping[L.Pin(y)] = ty, tx
+        if not well_posed():
+            ctx.tag("skipped:resonant-hierarchy")
+            return True
         d2 = unit_defect(parent.solve())
         d3 = unit_defect(parent.solve())
     except Exception as e:  # noqa
